@@ -310,7 +310,8 @@ def checked_calls(body, callee):
     return out
 
 
-def require_call(ctx, body, oid, rule, callee, argcheck, desc, start=None, allow_bypass=False):
+def require_call(ctx, body, oid, rule, callee, argcheck, desc, start=None, allow_bypass=False, per_iteration=False,
+                 extra_barriers=(), avoid_edges=()):
     """A call to `callee` whose arguments satisfy argcheck(callexpr) (returns
     True or an error string) lies on every path to a non-failure exit and its
     Result is propagated."""
@@ -339,8 +340,17 @@ def require_call(ctx, body, oid, rule, callee, argcheck, desc, start=None, allow
                key='%s|%s|%s|args' % (rule, oid, fn))
         return []
     where = '%s:%s' % (body.file, good[0]['line'])
-    if not allow_bypass:
-        okr, kinds = body.ok_reachable(avoid_blocks=[c['block'] for c in good], start=start or (0, 0))
+    if per_iteration and all(body.in_loop(c['block']) for c in good):
+        bad = loop_guard_bypass(body, good, extra_barriers)
+        if bad:
+            ctx.ob(oid, rule, False, fn, where, '%s: checked call to %s sits in a loop but %s' % (desc, callee, bad),
+                   key='%s|%s|%s|bypass' % (rule, oid, fn))
+            return good
+    elif not allow_bypass:
+        okr, kinds = body.exits(start or (0, 0), avoid_blocks=[c['block'] for c in good] + list(extra_barriers),
+                                avoid_edges=avoid_edges), None
+        kinds = okr
+        okr = bool(kinds - {'Err', 'Diverge'})
         if okr:
             ctx.ob(oid, rule, False, fn, where,
                    '%s: checked call to %s (line %s) can be bypassed: a non-failure exit is reachable without it (%s)' % (
@@ -376,3 +386,116 @@ def success_edge_blocks(body, ev_call_block, callee):
             if call_is(c, callee) and c[4] == ev_call_block:
                 return g
     return None
+
+
+# ---------------------------------------------------------------- argument binding
+
+def spec_match(e, spec):
+    """spec: 'a.b.c' access path | ('variant', Adt, Variant) | ('const', v) |
+    ('call', name, [specs]) | ('bin', op, spec, spec) | callable | None (any)"""
+    if spec is None:
+        return True
+    if callable(spec):
+        return bool(spec(e))
+    if isinstance(spec, str):
+        return access_path(e) == spec
+    if spec[0] == 'variant':
+        return e[0] == 'agg' and e[1] == spec[1] and e[2] == spec[2]
+    if spec[0] == 'const':
+        return e[0] == 'const' and e[1] == spec[1]
+    if spec[0] == 'call':
+        if e[0] != 'call' or not call_is(e, spec[1]):
+            return False
+        return all(spec_match(arg(e, i), s) for i, s in enumerate(spec[2]))
+    if spec[0] == 'bin':
+        return e[0] == 'bin' and e[1] == spec[1] and spec_match(e[2], spec[2]) and spec_match(e[3], spec[3])
+    if spec[0] == 'try':
+        return e[0] == 'try' and spec_match(e[1], spec[1])
+    if spec[0] == 'any':
+        return any(spec_match(e, s) for s in spec[1:])
+    return False
+
+
+def bind(specs):
+    """argcheck for require_call: positional argument specs"""
+    def f(c):
+        bad = []
+        for i, s in enumerate(specs):
+            if not spec_match(arg(c, i), s):
+                bad.append('arg %d is %s, expected %s' % (i, show(arg(c, i))[:80], s if not callable(s) else 'predicate'))
+        return True if not bad else '; '.join(bad)
+    return f
+
+
+def decisions(body, pred):
+    """boolean branches whose condition (when true) satisfies pred.
+    Returns list of dict(block, true_target, false_target, cond)."""
+    out = []
+    for b, t in body.switches():
+        pos = (b, len(body.blocks[b]['s']))
+        cond = body.expr_op(t['d'], pos)
+        if cond[0] == 'discr':
+            continue
+        if any(_safe(pred, fc) for fc in norm_bool(cond, True)):
+            ft = [tb for v, tb in t['vals'] if v == 0]
+            out.append({'block': b, 'true': t['else'], 'false': ft[0] if ft else None, 'cond': cond, 'line': t.get('l')})
+        elif any(_safe(pred, fc) for fc in norm_bool(cond, False)):
+            ft = [tb for v, tb in t['vals'] if v == 0]
+            out.append({'block': b, 'true': ft[0] if ft else None, 'false': t['else'], 'cond': cond, 'line': t.get('l')})
+    return out
+
+
+def edge_dominates(body, edge, block):
+    """every path from entry to `block` takes edge (a, b)"""
+    r = body.reach_avoiding([0], avoid_edges=[edge])
+    return block not in r
+
+
+def variant_edges(body, pred_scrutinee):
+    """switches on discr(x) with pred_scrutinee(x): returns list of
+    dict(block, edges {variant name: target}, else)"""
+    out = []
+    for g in body.guards():
+        c = g['cond']
+        if c[0] == 'discr' and _safe(pred_scrutinee, c[1]):
+            names = variant_names(body, g)
+            t = g['term']
+            edges = {names.get(v, str(v)): tb for v, tb in t['vals']}
+            out.append({'block': g['block'], 'edges': edges, 'else': t['else'], 'names': names, 'line': g['line']})
+    return out
+
+
+def ok_aggregates(body):
+    """expressions of the values returned in Ok(..) (assignments of Result::Ok
+    to a return-carrying local)"""
+    out = []
+    R = body.ret_locals()
+    for pos, s in body.stmts():
+        if s.get('k') == 'assign' and len(s['p']) == 1 and s['p'][0] in R and s['r']['k'] == 'agg' \
+                and s['r'].get('adt') == 'Result' and s['r'].get('variant') == 'Ok':
+            out.append((pos, body.expr_op(s['r']['ops'][0], pos)))
+    return out
+
+
+def result_expr(body):
+    """expression of the returned value (all return-carrying definitions)"""
+    ret = [b for b in sorted(body.reachable_blocks()) if body.blocks[b]['t']['k'] == 'ret']
+    alts = []
+    for b in ret:
+        pos = (b, len(body.blocks[b]['s']))
+        alts.append(body.expr_place([0], pos))
+    alts = list(dict.fromkeys(alts))
+    if not alts:
+        return ('unk', 'noreturn')
+    return alts[0] if len(alts) == 1 else ('phi', tuple(alts))
+
+
+def flow_complete(ctx, oid, body, params, desc):
+    """RF-FLOW (a): the returned value depends on every listed parameter"""
+    e = result_expr(body)
+    missing = [p for p in params if not has_leaf(e, p)]
+    ctx.ob(oid, 'RF-FLOW', not missing, body.path, '%s:%s' % (body.file, body.line),
+           ('%s: result depends on %s' % (desc, ', '.join(params))) if not missing else
+           ('%s: result does not depend on parameter(s) %s (result = %s)' % (desc, ', '.join(missing), show(e)[:300])),
+           key='RF-FLOW|%s|%s' % (oid, body.path))
+    return e
